@@ -1,16 +1,21 @@
 (* C06 -- the exact evaluator [inter_clip] of Model/Clip.v satisfies the hypotheses under which
-   the IoU laws of Proofs/Geom2Proofs.v section 6 are stated:
+   the IoU laws of Proofs/Geom2Proofs.v section 6 are stated ("area" = shoelace sum throughout,
+   no measure theory):
      1. invariance under a common rigid motion (cross products are invariant, crossing points
         covariant up to ==, the shoelace sum of a closed chain invariant);
-     2. 0 <= inter_clip e g <= area_rect e  (Green's formula for one Sutherland-Hodgman pass
-        about an origin on the clipping line; a pass keeps a polygon convex counter-clockwise);
-     3. separated boxes -> 0 (the clipped polygon lies on a line).
-   No measure theory: "area" is the shoelace sum throughout. *)
+     2.-3. Green's formula for one Sutherland-Hodgman pass about an origin on the clipping line
+        (the chords contribute nothing, every subject edge its kept fraction); a pass keeps a
+        polygon convex counter-clockwise; hence 0 <= inter_clip e g <= area_rect e;
+     4. separated boxes -> 0 (the clipped polygon lies on a line);
+     5.-7. inter_clip e g <= area_rect g: a pass never increases the number of times the
+        boundary leaves the inner side of ANY line (the footprint leaves it at most once), so in
+        the coordinates along the edges of g the boundary of the clipped polygon descends at most
+        the width of g in total, and the trapezoid form of the shoelace sum is bounded by the
+        area of g. *)
 From Coq Require Import List ZArith QArith Bool Lia Lqa Psatz.
 From PE Require Import Base.QUtil Model.Geom2 Model.Clip Proofs.Geom2Proofs Proofs.ClipProofs.
 Import ListNotations.
 Open Scope Q_scope.
-
 
 (* ======================================================================================== *)
 (* 1. rigid invariance of the evaluator                                                      *)
@@ -817,4 +822,549 @@ Proof.
     exact (separated_pt_eq _ _ _ _ (corners_rcorners e) (corners_rcorners g) D).
   - apply inter_clip_separated_l; try assumption.
     exact (separated_pt_eq _ _ _ _ (corners_rcorners g) (corners_rcorners e) D).
+Qed.
+
+
+(* ======================================================================================== *)
+(* 5. the boundary is traversed once: w.r.t. every line the cyclic vertex sequence leaves     *)
+(*    the inner side at most once -- a combinatorial invariant of every clipping pass          *)
+(* ======================================================================================== *)
+Section Exits.
+  Variable sd : pt -> bool.
+
+  Definition ex1 (u v : pt) : nat := if sd u && negb (sd v) then 1%nat else 0%nat.
+  (* number of in -> out steps along the open chain prev -> l *)
+  Fixpoint exs (prev : pt) (l : list pt) : nat :=
+    match l with [] => 0%nat | x :: t => (ex1 prev x + exs x t)%nat end.
+  Definition cexs (P : list pt) : nat :=
+    match P with [] => 0%nat | f :: t => exs (lastp f t) (f :: t) end.
+
+  Lemma ex1_tri u y v : (ex1 u v <= ex1 u y + ex1 y v)%nat.
+  Proof. unfold ex1. destruct (sd u), (sd y), (sd v); cbn; lia. Qed.
+
+  Lemma exs_snoc prev t x : exs prev (t ++ [x]) = (exs prev t + ex1 (hd prev (rev t)) x)%nat.
+  Proof.
+    revert prev. induction t as [|y t IH]; intros prev; cbn [app exs].
+    - cbn [rev hd]. lia.
+    - rewrite IH, hd_rev_cons. lia.
+  Qed.
+
+  Lemma cexs_linear f t : cexs (f :: t) = exs f (t ++ [f]).
+  Proof. unfold cexs. rewrite exs_snoc. cbn [exs]. unfold lastp. lia. Qed.
+
+  Lemma exs_drop_head p y m : m <> [] -> (exs p m <= ex1 p y + exs y m)%nat.
+  Proof. destruct m as [|m0 m']; [congruence|]. intros _. cbn [exs]. pose proof (ex1_tri p y m0). lia. Qed.
+
+  Lemma exs_filter k q l : forall p, (exs p (filter k l ++ [q]) <= exs p (l ++ [q]))%nat.
+  Proof.
+    induction l as [|y t IH]; intros p; cbn [filter app]; [lia|].
+    destruct (k y); cbn [app exs].
+    - specialize (IH y). lia.
+    - specialize (IH p).
+      assert (N : t ++ [q] <> []) by (destruct t; discriminate).
+      pose proof (exs_drop_head p y (t ++ [q]) N). lia.
+  Qed.
+
+  Lemma cexs_tail f t : (cexs t <= cexs (f :: t))%nat.
+  Proof.
+    destruct t as [|g t']; [cbn; lia|].
+    rewrite !cexs_linear. cbn [app exs]. rewrite !exs_snoc.
+    pose proof (ex1_tri (hd g (rev t')) f g). lia.
+  Qed.
+
+  Lemma cexs_filter k P : (cexs (filter k P) <= cexs P)%nat.
+  Proof.
+    induction P as [|f t IH]; [cbn; lia|]. cbn [filter]. destruct (k f).
+    - rewrite !cexs_linear. apply exs_filter.
+    - pose proof (cexs_tail f t). lia.
+  Qed.
+End Exits.
+
+(* a pass = insert the crossing points, then drop the vertices that are outside *)
+Fixpoint refine_aux (a b prev : pt) (l : list pt) : list pt :=
+  match l with
+  | [] => []
+  | cur :: t =>
+      (if Bool.eqb (inside a b prev) (inside a b cur) then [cur] else [intersect a b prev cur; cur])
+      ++ refine_aux a b cur t
+  end.
+
+Lemma inside_intersect a b s e : inside a b s <> inside a b e -> inside a b (intersect a b s e) = true.
+Proof. intros M. unfold inside. apply Qleb_true. rewrite (intersect_on_line a b s e M). lra. Qed.
+
+Lemma clip_is_filter a b l : forall prev,
+  clip_edge_aux a b prev l = filter (inside a b) (refine_aux a b prev l).
+Proof.
+  induction l as [|cur t IH]; intros prev; cbn [clip_edge_aux refine_aux]; [reflexivity|].
+  rewrite filter_app, <- IH. f_equal.
+  destruct (inside a b cur) eqn:Ec, (inside a b prev) eqn:Ep; cbn [Bool.eqb filter]; rewrite ?Ec; try reflexivity.
+  - rewrite inside_intersect by congruence. reflexivity.
+  - rewrite inside_intersect by congruence. reflexivity.
+Qed.
+
+Lemma refine_last a b l : forall prev, hd prev (rev (refine_aux a b prev l)) = hd prev (rev l).
+Proof.
+  induction l as [|cur t IH]; intros prev; [reflexivity|]. cbn [refine_aux].
+  rewrite hd_rev_cons.
+  destruct (Bool.eqb (inside a b prev) (inside a b cur)); cbn [app]; rewrite !hd_rev_cons.
+  - apply IH.
+  - rewrite <- (IH cur). destruct (rev (refine_aux a b cur t)); reflexivity.
+Qed.
+
+Section ExitsPass.
+  Variables a b : pt.
+  Variable sd : pt -> bool.
+  (* the side of a crossing point is the side of one of the end points *)
+  Hypothesis sd_between : forall s e, inside a b s <> inside a b e ->
+    sd (intersect a b s e) = sd s \/ sd (intersect a b s e) = sd e.
+
+  Lemma exs_refine l : forall prev, exs sd prev (refine_aux a b prev l) = exs sd prev l.
+  Proof.
+    induction l as [|cur t IH]; intros prev; cbn [refine_aux exs]; [reflexivity|].
+    destruct (Bool.eqb (inside a b prev) (inside a b cur)) eqn:E; cbn [app exs]; rewrite IH; [reflexivity|].
+    apply eqb_false_iff in E. destruct (sd_between prev cur E) as [H|H];
+      unfold ex1; rewrite H; destruct (sd prev), (sd cur); cbn; lia.
+  Qed.
+
+  Lemma cexs_clip_edge P : (cexs sd (clip_edge a b P) <= cexs sd P)%nat.
+  Proof.
+    destruct P as [|f t]; [cbn; lia|].
+    rewrite clip_edge_cons, clip_is_filter.
+    etransitivity; [apply cexs_filter|].
+    destruct (refine_aux a b (lastp f t) (f :: t)) as [|f' t'] eqn:E.
+    - cbn. lia.
+    - unfold cexs. rewrite <- E.
+      assert (L : lastp f' t' = lastp f t).
+      { pose proof (refine_last a b (f :: t) (lastp f t)) as R. rewrite E in R.
+        rewrite !hd_rev_cons in R. exact R. }
+      rewrite L, exs_refine. lia.
+  Qed.
+End ExitsPass.
+
+(* the sides w.r.t. any line n1 -> n2 behave like that *)
+Lemma inside_between a b n1 n2 s e : inside a b s <> inside a b e ->
+  inside n1 n2 (intersect a b s e) = inside n1 n2 s \/ inside n1 n2 (intersect a b s e) = inside n1 n2 e.
+Proof.
+  intros M. pose proof (tpar_range a b s e M) as [T0 T1].
+  assert (E : cross n1 n2 (intersect a b s e) ==
+              (1 - tpar a b s e) * cross n1 n2 s + tpar a b s e * cross n1 n2 e).
+  { rewrite (cross_pt_eq _ _ _ _ _ _ (pt_eq_refl n1) (pt_eq_refl n2) (intersect_tpar a b s e)). apply cross_lerp. }
+  unfold inside. set (t := tpar a b s e) in *.
+  destruct (Qleb_spec 0 (cross n1 n2 s)) as [Hs|Hs], (Qleb_spec 0 (cross n1 n2 e)) as [He|He].
+  - left. apply Qleb_true. rewrite E.
+    assert (0 <= (1 - t) * cross n1 n2 s) by (apply Qmult_le_0_compat; lra).
+    assert (0 <= t * cross n1 n2 e) by (apply Qmult_le_0_compat; lra). lra.
+  - destruct (Qleb 0 (cross n1 n2 (intersect a b s e))); [now left|now right].
+  - destruct (Qleb 0 (cross n1 n2 (intersect a b s e))); [now right|now left].
+  - left. apply Qleb_false. rewrite E.
+    destruct (Qlt_le_dec 0 t) as [P|P].
+    + assert ((1 - t) * cross n1 n2 s <= 0) by nra. assert (t * cross n1 n2 e < 0) by nra. lra.
+    + assert (Z : t == 0) by lra. rewrite Z. lra.
+Qed.
+
+(* polygons whose boundary leaves the inner side of every line at most once *)
+Definition Uni (P : list pt) : Prop := forall n1 n2, (cexs (inside n1 n2) P <= 1)%nat.
+
+Lemma Uni_clip_edge a b P : Uni P -> Uni (clip_edge a b P).
+Proof.
+  intros U n1 n2. etransitivity; [|apply (U n1 n2)].
+  apply cexs_clip_edge. intros s e M. now apply inside_between.
+Qed.
+
+Lemma Uni_clip_edges first cl : forall P, Uni P -> Uni (clip_edges first cl P).
+Proof.
+  induction cl as [|a t IH]; intros P U; cbn [clip_edges]; [exact U|]. apply IH. now apply Uni_clip_edge.
+Qed.
+
+Lemma Uni_clip subj cl : Uni subj -> Uni (clip subj cl).
+Proof.
+  intros U. unfold clip. destruct cl as [|f t]; [intros n1 n2; cbn; lia|now apply Uni_clip_edges].
+Qed.
+
+Lemma Uni_rcorners b : box_valid b -> Uni (rcorners b).
+Proof.
+  intros V n1 n2. destruct (rcorners_para b V) as (c0 & c1 & c2 & c3 & E & F1 & F2 & _). rewrite E.
+  assert (A : cross n1 n2 c0 + cross n1 n2 c2 == cross n1 n2 c1 + cross n1 n2 c3).
+  { unfold cross. rewrite F1, F2. ring. }
+  unfold cexs, lastp. cbn [rev app hd exs]. unfold ex1, inside.
+  destruct (Qleb_spec 0 (cross n1 n2 c0)), (Qleb_spec 0 (cross n1 n2 c1)),
+           (Qleb_spec 0 (cross n1 n2 c2)), (Qleb_spec 0 (cross n1 n2 c3)); cbn; try lia; exfalso; lra.
+Qed.
+
+
+(* ======================================================================================== *)
+(* 6. total descent of a coordinate along a boundary that crosses every level at most once   *)
+(* ======================================================================================== *)
+Fixpoint psum (g : pt * pt -> Q) (L : list (pt * pt)) : Q :=
+  match L with [] => 0 | x :: t => g x + psum g t end.
+
+Lemma psum_ext g h L : (forall x, In x L -> g x == h x) -> psum g L == psum h L.
+Proof.
+  induction L as [|x t IH]; intros H; cbn [psum]; [reflexivity|].
+  rewrite (H x (or_introl eq_refl)), IH; [reflexivity|]. intros y Hy. apply H. now right.
+Qed.
+
+Lemma psum_le g h L : (forall x, In x L -> g x <= h x) -> psum g L <= psum h L.
+Proof.
+  induction L as [|x t IH]; intros H; cbn [psum]; [lra|].
+  pose proof (H x (or_introl eq_refl)). assert (psum g t <= psum h t) by (apply IH; intros y Hy; apply H; now right). lra.
+Qed.
+
+Lemma psum_filter_split g k L :
+  psum g L == psum g (filter k L) + psum g (filter (fun x => negb (k x)) L).
+Proof.
+  induction L as [|x t IH]; cbn [psum filter]; [ring|]. destruct (k x); cbn [negb psum]; rewrite IH; ring.
+Qed.
+
+Lemma psum_scale c g L : psum (fun x => c * g x) L == c * psum g L.
+Proof. induction L as [|x t IH]; cbn [psum]; [ring|]. rewrite IH. ring. Qed.
+
+Lemma psum_plus g h L : psum (fun x => g x + h x) L == psum g L + psum h L.
+Proof. induction L as [|x t IH]; cbn [psum]; [ring|]. rewrite IH. ring. Qed.
+
+Lemma filter_length_le' {A} (k : A -> bool) l : (length (filter k l) <= length l)%nat.
+Proof. induction l as [|x t IH]; cbn [filter length]; [lia|]. destruct (k x); cbn [length]; lia. Qed.
+
+Lemma filter_filter_length {A} (p q : A -> bool) l :
+  (length (filter p (filter q l)) <= length (filter p l))%nat.
+Proof.
+  induction l as [|x t IH]; cbn [filter]; [lia|].
+  destruct (q x); cbn [filter]; destruct (p x); cbn [length]; lia.
+Qed.
+
+Lemma filter_In_pos {A} (p : A -> bool) l x : In x l -> p x = true -> (1 <= length (filter p l))%nat.
+Proof.
+  induction l as [|y t IH]; intros Hin Hp; [contradiction|]. cbn [filter].
+  destruct Hin as [->|Hin]; [rewrite Hp; cbn; lia|].
+  destruct (p y); cbn [length]; [lia|now apply IH].
+Qed.
+
+Definition dplus (x : Q) : Q := if Qltb 0 x then x else 0.
+
+Section Travel.
+  Variable xi : pt -> Q.
+
+  Definition desc (uv : pt * pt) : Q := dplus (xi (fst uv) - xi (snd uv)).
+  (* the step uv goes down through level c *)
+  Definition trans (c : Q) (uv : pt * pt) : bool := Qleb c (xi (fst uv)) && Qltb (xi (snd uv)) c.
+  Definition cnt (c : Q) (L : list (pt * pt)) : nat := length (filter (trans c) L).
+
+  Lemma travel : forall n L lo hi, (length L <= n)%nat -> lo <= hi ->
+    (forall uv, In uv L -> xi (snd uv) < xi (fst uv) -> lo <= xi (snd uv) /\ xi (fst uv) <= hi) ->
+    (forall q : pt, (cnt (xi q) L <= 1)%nat) ->
+    psum desc L <= hi - lo.
+  Proof.
+    induction n as [|n IH]; intros L lo hi Hn Hlh Hin Hc.
+    - destruct L; [cbn; lra|cbn in Hn; lia].
+    - destruct L as [|[u v] T]; [cbn; lra|]. cbn [length] in Hn. cbn [psum].
+      assert (HcT : forall q, (cnt (xi q) T <= 1)%nat).
+      { intros q. specialize (Hc q). unfold cnt in *. cbn [filter] in Hc.
+        destruct (trans (xi q) (u, v)); cbn [length] in Hc; lia. }
+      assert (HinT : forall uv, In uv T -> xi (snd uv) < xi (fst uv) -> lo <= xi (snd uv) /\ xi (fst uv) <= hi)
+        by (intros uv H; apply Hin; now right).
+      unfold desc at 1. cbn [fst snd]. unfold dplus.
+      destruct (Qltb_spec 0 (xi u - xi v)) as [D|D].
+      + (* a descent from b = xi u to a = xi v *)
+        destruct (Hin (u, v) (or_introl eq_refl)) as [La Hb]; [cbn [fst snd]; lra|]. cbn [fst snd] in La, Hb.
+        set (kL := fun p : pt * pt => Qleb (xi (fst p)) (xi v)).
+        rewrite (psum_filter_split desc kL T).
+        assert (BL : psum desc (filter kL T) <= xi v - lo).
+        { apply (IH _ lo (xi v)).
+          - pose proof (filter_length_le' kL T). lia.
+          - exact La.
+          - intros uv H1 H2. apply filter_In in H1. destruct H1 as [H1 H3]. unfold kL in H3. apply Qleb_true in H3.
+            destruct (HinT uv H1 H2). split; assumption.
+          - intros q. unfold cnt. etransitivity; [apply filter_filter_length|apply HcT]. }
+        assert (BR : psum desc (filter (fun x => negb (kL x)) T) <= hi - xi u).
+        { apply (IH _ (xi u) hi).
+          - pose proof (filter_length_le' (fun x => negb (kL x)) T). lia.
+          - exact Hb.
+          - intros [u' v'] H1 H2. apply filter_In in H1. destruct H1 as [H1 H3]. unfold kL in H3.
+            apply negb_true_iff, Qleb_false in H3. cbn [fst snd] in *.
+            destruct (HinT (u', v') H1 H2) as [_ H5]. cbn [fst snd] in H5. split; [|exact H5].
+            destruct (Qlt_le_dec (xi v') (xi u)) as [Bad|Ok]; [exfalso|exact Ok].
+            (* a level that both steps go down through *)
+            assert (W : exists q, xi v < xi q /\ xi q <= xi u /\ xi v' < xi q /\ xi q <= xi u').
+            { destruct (Qlt_le_dec (xi u') (xi u)); [exists u'|exists u]; repeat split; lra. }
+            destruct W as (q & W1 & W2 & W3 & W4).
+            specialize (Hc q). unfold cnt in Hc. cbn [filter] in Hc.
+            assert (T1 : trans (xi q) (u, v) = true).
+            { unfold trans. cbn [fst snd]. apply andb_true_iff. split; [now apply Qleb_true|now apply Qltb_true]. }
+            assert (T2 : trans (xi q) (u', v') = true).
+            { unfold trans. cbn [fst snd]. apply andb_true_iff. split; [now apply Qleb_true|now apply Qltb_true]. }
+            rewrite T1 in Hc. cbn [length] in Hc.
+            pose proof (filter_In_pos (trans (xi q)) T (u', v') H1 T2). lia.
+          - intros q. unfold cnt. etransitivity; [apply filter_filter_length|apply HcT]. }
+        lra.
+      + assert (psum desc T <= hi - lo) by (apply (IH T lo hi); auto; lia). lra.
+  Qed.
+
+  (* the count of down-steps through a level is the exit count of Section Exits *)
+  Lemma Qltb_negb_Qleb x c : Qltb x c = negb (Qleb c x).
+  Proof. destruct (Qltb_spec x c), (Qleb_spec c x); try reflexivity; exfalso; lra. Qed.
+
+  Lemma cnt_exs c l : forall prev, cnt c (pairs prev l) = exs (fun p => Qleb c (xi p)) prev l.
+  Proof.
+    induction l as [|x t IH]; intros prev; [reflexivity|]. unfold cnt in *. cbn [pairs filter exs].
+    unfold trans at 1. cbn [fst snd]. unfold ex1. rewrite Qltb_negb_Qleb.
+    destruct (Qleb c (xi prev) && negb (Qleb c (xi x))); cbn [length]; rewrite IH; reflexivity.
+  Qed.
+End Travel.
+
+Lemma exs_ext sd sd' l : (forall p, sd p = sd' p) -> forall prev, exs sd prev l = exs sd' prev l.
+Proof.
+  intros H. induction l as [|x t IH]; intros prev; cbn [exs]; [reflexivity|].
+  unfold ex1. rewrite !H, IH. reflexivity.
+Qed.
+
+(* ---------------------------------------------------------------------------------------- *)
+(* the trapezoid form of the shoelace sum in coordinates (xi, eta) with 0 <= eta <= A         *)
+(* ---------------------------------------------------------------------------------------- *)
+Lemma psum_tele (h : pt -> Q) l : forall prev,
+  psum (fun uv => h (fst uv) - h (snd uv)) (pairs prev l) == h prev - h (hd prev (rev l)).
+Proof.
+  induction l as [|x t IH]; intros prev; cbn [pairs psum].
+  - cbn [rev hd]. ring.
+  - rewrite IH, hd_rev_cons. cbn [fst snd]. ring.
+Qed.
+
+Lemma psum_tele_cyc (h : pt -> Q) P : psum (fun uv => h (fst uv) - h (snd uv)) (cpairs P) == 0.
+Proof.
+  destruct P as [|f t]; [reflexivity|]. unfold cpairs. rewrite psum_tele, hd_rev_cons. unfold lastp. ring.
+Qed.
+
+Lemma trapezoid_bound (xi eta : pt -> Q) (A : Q) P :
+  (forall p, In p P -> 0 <= eta p <= A) ->
+  psum (fun uv => xi (fst uv) * eta (snd uv) - xi (snd uv) * eta (fst uv)) (cpairs P)
+  <= (2 * A) * psum (desc xi) (cpairs P).
+Proof.
+  intros HA.
+  rewrite <- psum_scale.
+  assert (E : psum (fun uv => xi (fst uv) * eta (snd uv) - xi (snd uv) * eta (fst uv)) (cpairs P) ==
+              psum (fun uv => (xi (fst uv) - xi (snd uv)) * (eta (fst uv) + eta (snd uv))
+                              + - (xi (fst uv) * eta (fst uv) - xi (snd uv) * eta (snd uv))) (cpairs P)).
+  { apply psum_ext. intros [u v] _. cbn [fst snd]. ring. }
+  rewrite E, psum_plus.
+  assert (Z : psum (fun uv => - (xi (fst uv) * eta (fst uv) - xi (snd uv) * eta (snd uv))) (cpairs P) == 0).
+  { rewrite <- (psum_tele_cyc (fun p => - (xi p * eta p)) P). apply psum_ext. intros [u v] _. cbn [fst snd]. ring. }
+  rewrite Z.
+  assert (B : psum (fun uv => (xi (fst uv) - xi (snd uv)) * (eta (fst uv) + eta (snd uv))) (cpairs P)
+              <= psum (fun x => 2 * A * desc xi x) (cpairs P)).
+  { apply psum_le. intros [u v] Huv. destruct (cpairs_in P u v Huv) as [Hu Hv].
+    destruct (HA u Hu), (HA v Hv). unfold desc, dplus. cbn [fst snd].
+    destruct (Qltb_spec 0 (xi u - xi v)) as [D|D]; nra. }
+  lra.
+Qed.
+
+
+(* ======================================================================================== *)
+(* 7. a once-traversed polygon inside a parallelogram has at most its shoelace sum            *)
+(* ======================================================================================== *)
+Lemma csum_psum o l : forall prev, csum o prev l == psum (fun uv => cross o (fst uv) (snd uv)) (pairs prev l).
+Proof. induction l as [|x t IH]; intros prev; cbn [csum pairs psum]; [reflexivity|]. rewrite IH. reflexivity. Qed.
+
+Lemma cycsum_psum o P : cycsum o P == psum (fun uv => cross o (fst uv) (snd uv)) (cpairs P).
+Proof. destruct P as [|f t]; [reflexivity|]. apply csum_psum. Qed.
+
+Section InPara.
+  Variables c0 c1 c2 c3 : pt.
+  Hypothesis F1 : fst c2 == fst c1 + fst c3 - fst c0.
+  Hypothesis F2 : snd c2 == snd c1 + snd c3 - snd c0.
+  Hypothesis Apos : 0 < cross c0 c1 c2.
+
+  (* coordinates along the two edge directions, scaled so that both run from 0 to A *)
+  Definition pxi (p : pt) : Q := cross c0 c1 p.
+  Definition peta (p : pt) : Q := cross c1 c2 p.
+
+  Lemma para_det u v : cross c0 c1 c2 * cross c1 u v == pxi u * peta v - pxi v * peta u.
+  Proof. unfold pxi, peta, cross. ring. Qed.
+
+  Lemma para_opp1 p : cross c0 c1 p + cross c2 c3 p == cross c0 c1 c2.
+  Proof. unfold cross. rewrite F1, F2. ring. Qed.
+  Lemma para_opp2 p : cross c1 c2 p + cross c3 c0 p == cross c0 c1 c2.
+  Proof. unfold cross. rewrite F1, F2. ring. Qed.
+
+  (* the line through q parallel to the edge c0 -> c1 *)
+  Definition par_to (q : pt) : pt := (fst q + (fst c1 - fst c0), snd q + (snd c1 - snd c0)).
+  Lemma cross_par q p : cross q (par_to q) p == pxi p - pxi q.
+  Proof. unfold pxi, par_to, cross. cbn [fst snd]. ring. Qed.
+
+  Lemma inside_par q p : inside q (par_to q) p = Qleb (pxi q) (pxi p).
+  Proof.
+    unfold inside. pose proof (cross_par q p) as E.
+    destruct (Qleb_spec 0 (cross q (par_to q) p)), (Qleb_spec (pxi q) (pxi p)); try reflexivity; exfalso; lra.
+  Qed.
+
+  Lemma para_shoelace_le Q :
+    Uni Q ->
+    (forall p, In p Q -> 0 <= cross c0 c1 p /\ 0 <= cross c1 c2 p /\ 0 <= cross c2 c3 p /\ 0 <= cross c3 c0 p) ->
+    shoelace2 Q <= 2 * cross c0 c1 c2.
+  Proof.
+    intros U HQ. set (A := cross c0 c1 c2) in *.
+    assert (Bx : forall p, In p Q -> 0 <= pxi p <= A).
+    { intros p Hp. destruct (HQ p Hp) as (H0 & _ & H2 & _). pose proof (para_opp1 p). unfold pxi. fold A in H. lra. }
+    assert (By : forall p, In p Q -> 0 <= peta p <= A).
+    { intros p Hp. destruct (HQ p Hp) as (_ & H1 & _ & H3). pose proof (para_opp2 p). unfold peta. fold A in H. lra. }
+    assert (E : A * shoelace2 Q ==
+                psum (fun uv => pxi (fst uv) * peta (snd uv) - pxi (snd uv) * peta (fst uv)) (cpairs Q)).
+    { rewrite (shoelace2_cycsum c1), cycsum_psum, <- psum_scale. apply psum_ext.
+      intros [u v] _. cbn [fst snd]. apply para_det. }
+    pose proof (trapezoid_bound pxi peta A Q By) as T.
+    assert (D : psum (desc pxi) (cpairs Q) <= A - 0).
+    { apply (travel pxi (length (cpairs Q))); [lia|lra| |].
+      - intros [u v] Huv _. destruct (cpairs_in Q u v Huv) as [Hu Hv]. cbn [fst snd].
+        destruct (Bx u Hu), (Bx v Hv). split; assumption.
+      - intros q. destruct Q as [|f t]; [cbn; lia|]. unfold cpairs. rewrite cnt_exs.
+        rewrite (exs_ext _ (inside q (par_to q))); [apply (U q (par_to q))|].
+        intros p. symmetry. apply inside_par. }
+    assert (L : A * shoelace2 Q <= 2 * A * A) by nra.
+    assert (R : 0 <= 2 * A - shoelace2 Q) by (apply (pos_mult_nonneg A); [exact Apos|lra]). lra.
+  Qed.
+End InPara.
+
+Lemma rcorners_para_area b : box_valid b ->
+  exists c0 c1 c2 c3, rcorners b = [c0; c1; c2; c3] /\
+    fst c2 == fst c1 + fst c3 - fst c0 /\ snd c2 == snd c1 + snd c3 - snd c0 /\
+    cross c0 c1 c2 == area_rect b.
+Proof.
+  intros V. pose proof (box_red_valid b V) as [_ U].
+  pose proof (cross_opposite (box_red b) U) as X.
+  destruct (rcorners_para b V) as (c0 & c1 & c2 & c3 & E & F1 & F2 & _).
+  exists c0, c1, c2, c3. repeat (split; [assumption|]).
+  unfold rcorners in E. rewrite corners4 in *. cbn [map] in E. inversion E; subst. destruct X as (X0 & _).
+  rewrite (cross_pt_eq _ _ _ _ _ _ (pt_red_eq _) (pt_red_eq _) (pt_red_eq _)), X0.
+  apply box_red_area.
+Qed.
+
+Lemma inter_clip_le_r e g : box_valid e -> box_valid g -> inter_clip e g <= area_rect g.
+Proof.
+  intros Ve Vg.
+  destruct (rcorners_para_area g Vg) as (c0 & c1 & c2 & c3 & E & F1 & F2 & A).
+  pose proof (area_rect_pos g (proj1 Vg)) as P.
+  unfold inter_clip, clip_area, poly_area.
+  assert (L : shoelace2 (clip (rcorners e) (rcorners g)) <= 2 * cross c0 c1 c2).
+  { apply (para_shoelace_le c0 c1 c2 c3 F1 F2); [lra|apply Uni_clip, Uni_rcorners, Ve|].
+    intros p Hp. pose proof (clip_within_clip (rcorners e) (rcorners g)) as W. rewrite E in W, Hp.
+    unfold edges in W. cbn [combine app] in W.
+    repeat split.
+    - apply (W (c0, c1)); [cbn; tauto|exact Hp].
+    - apply (W (c1, c2)); [cbn; tauto|exact Hp].
+    - apply (W (c2, c3)); [cbn; tauto|exact Hp].
+    - apply (W (c3, c0)); [cbn; tauto|exact Hp]. }
+  apply Qle_shift_div_r; lra.
+Qed.
+
+
+(* ======================================================================================== *)
+(* 8. the IoU laws for the executable evaluator, without hypotheses about an oracle          *)
+(* ======================================================================================== *)
+(* same footprint (up to ==): the evaluator depends on the corners only up to == *)
+Definition idm : motion := mkMotion 1 0 0 0 0.
+Lemma idm_unit : motion_unit idm.
+Proof. unfold motion_unit, idm. cbn [mc ms]. ring. Qed.
+Lemma move_idm p : pt_eq (move_pt idm p) p.
+Proof. unfold pt_eq, move_pt, idm, add_pt, rot. cbn [fst snd mc ms mtx mty]. split; ring. Qed.
+
+Lemma Forall2_pt_eq_trans l1 l2 l3 : Forall2 pt_eq l1 l2 -> Forall2 pt_eq l2 l3 -> Forall2 pt_eq l1 l3.
+Proof.
+  intros H. revert l3. induction H as [|x y t u Hx Ht IH]; intros l3 H3; inversion H3; subst; constructor.
+  - eapply pt_eq_trans; eassumption.
+  - now apply IH.
+Qed.
+Lemma Forall2_pt_eq_sym l1 l2 : Forall2 pt_eq l1 l2 -> Forall2 pt_eq l2 l1.
+Proof. induction 1; constructor; [now apply pt_eq_sym|assumption]. Qed.
+Lemma Forall2_pt_eq_refl l : Forall2 pt_eq l l.
+Proof. induction l; constructor; [apply pt_eq_refl|assumption]. Qed.
+
+Lemma Forall2_pt_eq_mv l l' : Forall2 pt_eq l l' -> Forall2 (mv idm) l l'.
+Proof.
+  induction 1 as [|x y t u Hx Ht IH]; constructor; [|exact IH].
+  unfold mv. eapply pt_eq_trans; [apply pt_eq_sym, Hx|apply pt_eq_sym, move_idm].
+Qed.
+
+Lemma clip_area_pt_eq s s' c c' :
+  Forall2 pt_eq s s' -> Forall2 pt_eq c c' -> clip_area s' c' == clip_area s c.
+Proof.
+  intros Hs Hc. unfold clip_area, poly_area.
+  rewrite (shoelace2_mv idm idm_unit _ _
+             (clip_mv idm idm_unit _ _ _ _ (Forall2_pt_eq_mv _ _ Hs) (Forall2_pt_eq_mv _ _ Hc))).
+  reflexivity.
+Qed.
+
+Lemma rcorners_same_bev e g : same_bev e g -> Forall2 pt_eq (rcorners e) (rcorners g).
+Proof.
+  intros S.
+  eapply Forall2_pt_eq_trans; [apply Forall2_pt_eq_sym, corners_rcorners|].
+  eapply Forall2_pt_eq_trans; [apply corners_same_bev, S|apply corners_rcorners].
+Qed.
+
+Lemma inter_clip_same e g : box_valid e -> box_valid g -> same_bev e g -> inter_clip e g == area_rect e.
+Proof.
+  intros Ve Vg S. rewrite <- (inter_clip_self e Ve). unfold inter_clip.
+  apply clip_area_pt_eq; [apply Forall2_pt_eq_refl|now apply rcorners_same_bev].
+Qed.
+
+(* the six hypotheses of Section IoUAlgebra other than symmetry, for the evaluator *)
+Lemma inter_clip_nonneg_v e g : box_valid e -> box_valid g -> 0 <= inter_clip e g.
+Proof. intros Ve _. now apply inter_clip_nonneg. Qed.
+Lemma inter_clip_le_l_v e g : box_valid e -> box_valid g -> inter_clip e g <= area_rect e.
+Proof. intros Ve _. now apply inter_clip_le_l. Qed.
+Lemma inter_clip_rigid_v m e g :
+  motion_unit m -> box_valid e -> box_valid g -> inter_clip (move_box m e) (move_box m g) == inter_clip e g.
+Proof. intros Um _ _. now apply inter_clip_rigid. Qed.
+
+Lemma iou2_clip_unit_interval e g : box_valid e -> box_valid g -> 0 <= iou2_clip e g <= 1.
+Proof.
+  unfold iou2_clip. apply iou2_unit_interval;
+    [exact inter_clip_nonneg_v|exact inter_clip_le_l_v|exact inter_clip_le_r].
+Qed.
+Lemma iou3_clip_unit_interval e g : box_valid e -> box_valid g -> 0 <= iou3_clip e g <= 1.
+Proof.
+  unfold iou3_clip. apply iou3_unit_interval;
+    [exact inter_clip_nonneg_v|exact inter_clip_le_l_v|exact inter_clip_le_r].
+Qed.
+Lemma iou3_clip_le_iou2_clip e g : box_valid e -> box_valid g -> iou3_clip e g <= iou2_clip e g.
+Proof.
+  unfold iou3_clip, iou2_clip. apply iou3_le_iou2;
+    [exact inter_clip_nonneg_v|exact inter_clip_le_l_v|exact inter_clip_le_r].
+Qed.
+Lemma iou_clip_disjoint_zero e g :
+  box_valid e -> box_valid g -> boxes_disjoint e g -> iou2_clip e g == 0 /\ iou3_clip e g == 0.
+Proof.
+  intros Ve Vg D. unfold iou2_clip, iou3_clip. split.
+  - apply iou2_disjoint_zero; [exact inter_clip_disjoint|assumption..].
+  - apply iou3_disjoint_zero; [exact inter_clip_disjoint|assumption..].
+Qed.
+Lemma iou_clip_rigid_invariant m e g :
+  motion_unit m -> box_valid e -> box_valid g ->
+  iou2_clip (move_box m e) (move_box m g) == iou2_clip e g /\
+  iou3_clip (move_box m e) (move_box m g) == iou3_clip e g.
+Proof.
+  intros Um Ve Vg. unfold iou2_clip, iou3_clip. split.
+  - apply iou2_rigid_invariant; [exact inter_clip_rigid_v|assumption..].
+  - apply iou3_rigid_invariant; [exact inter_clip_rigid_v|assumption..].
+Qed.
+Lemma iou2_clip_identical_one e g : box_valid e -> box_valid g -> same_bev e g -> iou2_clip e g == 1.
+Proof. unfold iou2_clip. apply iou2_identical_one. exact inter_clip_same. Qed.
+
+(* symmetry in the two cases the property names, and the two-sided bounds in every case *)
+Lemma boxes_disjoint_sym e g : boxes_disjoint e g -> boxes_disjoint g e.
+Proof. intros [H|H]; [now right|now left]. Qed.
+
+Lemma inter_clip_sym_partial e g : box_valid e -> box_valid g ->
+  (same_bev e g \/ boxes_disjoint e g -> inter_clip e g == inter_clip g e /\ iou2_clip e g == iou2_clip g e) /\
+  (0 <= inter_clip e g /\ inter_clip e g <= area_rect e /\ inter_clip e g <= area_rect g) /\
+  (0 <= inter_clip g e /\ inter_clip g e <= area_rect e /\ inter_clip g e <= area_rect g).
+Proof.
+  intros Ve Vg. split; [|split].
+  - intros H.
+    assert (E : inter_clip e g == inter_clip g e).
+    { destruct H as [S|D].
+      + rewrite (inter_clip_same e g Ve Vg S), (inter_clip_same g e Vg Ve (same_bev_sym _ _ S)).
+        now apply same_bev_area.
+      + rewrite (inter_clip_disjoint e g Ve Vg D), (inter_clip_disjoint g e Vg Ve (boxes_disjoint_sym _ _ D)).
+        reflexivity. }
+    split; [exact E|]. unfold iou2_clip, iou2_box. now apply iou_swap.
+  - split; [now apply inter_clip_nonneg|]. split; [now apply inter_clip_le_l|now apply inter_clip_le_r].
+  - split; [now apply inter_clip_nonneg|]. split; [now apply inter_clip_le_r|now apply inter_clip_le_l].
 Qed.
